@@ -224,6 +224,21 @@ def run(M, c):
         p2, t2 = P.Date(*F2), dt.date(*F2)
         M.cls("date", F[1], F[2] > 28)
         _acc(M, "date.accessors", DACC, p, (("native", t),), "Date", value=str(t))
+        # the fromtimestamp() class methods with float timestamps, the last doubles before a local midnight included
+        if 1971 <= F[0] <= 2037:
+            import math
+
+            mid = dt.datetime(*F).timestamp()
+            for ts in (mid, math.nextafter(mid, -math.inf), math.nextafter(math.nextafter(mid, -math.inf), -math.inf), mid - 0.25, mid + 0.9999996,
+                       float(int(mid) + 43200), mid - 1e-6):
+                a_ = _call(lambda v: fields(P.Date.fromtimestamp(v)), ts)
+                b_ = _call(lambda v: fields(dt.date.fromtimestamp(v)), ts)
+                M.check("date.accessors", a_ == b_, "C11/Date:fromtimestamp(float):native", "Date.fromtimestamp differs from date.fromtimestamp", ts=repr(ts),
+                        got=a_, native=b_)
+                a2 = _call(lambda v: (fields(P.DateTime.fromtimestamp(v)), fields(P.DateTime.utcfromtimestamp(v))), ts)
+                b2 = _call(lambda v: (fields(dt.datetime.fromtimestamp(v)), fields(dt.datetime.utcfromtimestamp(v))), ts)
+                M.check("dt.accessors", a2 == b2, "C11/DateTime:fromtimestamp(float):native", "DateTime.(utc)fromtimestamp differs from the native class methods",
+                        ts=repr(ts), got=a2, native=b2)
         for n, f in OPS:
             r_ = (f(p, p2), f(p, t2), f(t, p2))
             M.check("date.pairs", len(set(r_)) == 1 and r_[0] == f(t, t2), f"C11/Date:cmp-{n}", "Date comparison differs", a=str(t), b=str(t2), got=r_)
